@@ -142,7 +142,7 @@ pub mod unit {
         /*@fn radix-common/src/math/precise_decimal.rs :: impl CheckedMul<PreciseDecimal> for PreciseDecimal :: fn checked_mul
         @sig
             ensures ret matches Some(r) ==> r.0.v() == mul_spec(self.0.v(), other.0.v()),
-                    ret is Some <==> in_i256(mul_spec(self.0.v(), other.0.v())),
+                    ret is Some <==> (in_i256(mul_spec(self.0.v(), other.0.v())) && mul_spec(self.0.v(), other.0.v()) != i256_min()),
         @entry
             proof { lemma_mul_width(self.0.v() * other.0.v()); }
         @subst <<c_256.map(Self)>> => <<c_256.map(|x: I256| -> (r: PreciseDecimal) ensures r.0 == x { PreciseDecimal(x) })>> why: Verus rejects a tuple-struct constructor used as a function value; the closure is its eta-expansion
@@ -153,12 +153,24 @@ pub mod unit {
         /*@fn radix-common/src/math/precise_decimal.rs :: impl CheckedDiv<PreciseDecimal> for PreciseDecimal :: fn checked_div
         @sig
             ensures ret matches Some(r) ==> other.0.v() != 0 && r.0.v() == div_spec(self.0.v(), other.0.v()),
-                    ret is Some <==> (other.0.v() != 0 && in_i256(div_spec(self.0.v(), other.0.v()))),
+                    ret is Some <==> (other.0.v() != 0 && in_i256(div_spec(self.0.v(), other.0.v())) && div_spec(self.0.v(), other.0.v()) != i256_min()),
         @entry
             proof { lemma_div_width(self.0.v()); }
         @subst <<c_256.map(Self)>> => <<c_256.map(|x: I256| -> (r: PreciseDecimal) ensures r.0 == x { PreciseDecimal(x) })>> why: Verus rejects a tuple-struct constructor used as a function value; the closure is its eta-expansion
         @*/
     }
+
+    // ---- C24 AS STATED, at the boundary: "whenever that result is representable" -------------------
+    // EXPECTED TO FAIL -- known finding (known_findings.txt; replayed on the real crate by
+    // kani/common_h test c24_finding_min_times_one_is_reported_as_overflow): a product or quotient equal
+    // to the most negative value is representable, yet checked_mul / checked_div report None, because the
+    // wide -> narrow conversion of the bnum wrappers rejects -2^(N-1).
+    pub fn checked_mul_reports_every_representable_product_KNOWN_FINDING(a: PreciseDecimal, b: PreciseDecimal) -> (r: Option<PreciseDecimal>)
+        ensures r is Some <==> in_i256(mul_spec(a.0.v(), b.0.v()))
+    { a.checked_mul(b) }
+    pub fn checked_div_reports_every_representable_quotient_KNOWN_FINDING(a: PreciseDecimal, b: PreciseDecimal) -> (r: Option<PreciseDecimal>)
+        ensures r is Some <==> (b.0.v() != 0 && in_i256(div_spec(a.0.v(), b.0.v())))
+    { a.checked_div(b) }
     // ---- panicking operators: panic <==> the checked operation reports None -------------------
     impl vstd::std_specs::ops::AddSpecImpl<PreciseDecimal> for PreciseDecimal {
         open spec fn obeys_add_spec() -> bool { true }
@@ -186,7 +198,7 @@ pub mod unit {
     }
     impl vstd::std_specs::ops::MulSpecImpl<PreciseDecimal> for PreciseDecimal {
         open spec fn obeys_mul_spec() -> bool { true }
-        open spec fn mul_req(self, o: PreciseDecimal) -> bool { in_i256(mul_spec(self.0.v(), o.0.v())) }
+        open spec fn mul_req(self, o: PreciseDecimal) -> bool { in_i256(mul_spec(self.0.v(), o.0.v())) && mul_spec(self.0.v(), o.0.v()) != i256_min() }
         open spec fn mul_spec(self, o: PreciseDecimal) -> PreciseDecimal { PreciseDecimal(I256::of(mul_spec(self.0.v(), o.0.v()))) }
     }
     impl Mul<PreciseDecimal> for PreciseDecimal {
@@ -198,7 +210,7 @@ pub mod unit {
     }
     impl vstd::std_specs::ops::DivSpecImpl<PreciseDecimal> for PreciseDecimal {
         open spec fn obeys_div_spec() -> bool { true }
-        open spec fn div_req(self, o: PreciseDecimal) -> bool { o.0.v() != 0 && in_i256(div_spec(self.0.v(), o.0.v())) }
+        open spec fn div_req(self, o: PreciseDecimal) -> bool { o.0.v() != 0 && in_i256(div_spec(self.0.v(), o.0.v())) && div_spec(self.0.v(), o.0.v()) != i256_min() }
         open spec fn div_spec(self, o: PreciseDecimal) -> PreciseDecimal { PreciseDecimal(I256::of(div_spec(self.0.v(), o.0.v()))) }
     }
     impl Div<PreciseDecimal> for PreciseDecimal {
